@@ -183,15 +183,19 @@ def make(spec, loop):
 def families(tier):
     deep = tier == 'thorough'
     out = []
-    cfg = dict(bound=3 if deep else 2, cap=30000 if deep else 1200, window=0.8, max_targets=2, horizon=25.0)
+    cfg = dict(bound=2, cap=4000 if deep else 1200, window=0.8, max_targets=2, horizon=25.0)  # thorough = the unpruned product of streams x calls x starts x cancels
     letters = [('T1', 0), ('T1', 1), ('T2', 1)]
     streams = []
-    for n in range(1, (4 if deep else 3) + 1):
+    for n in range(1, 4):
         streams += list(itertools.product(letters, repeat=n))
+    if deep:
+        streams += [st for st in itertools.product(letters, repeat=4) if st[0] == ('T1', 0) and st[3] != ('T2', 1)]
     call_sets = [(i,) for i in range(8)] + [(0, 1), (1, 2), (3, 4), (0, 5), (2, 6), (1, 7), (4, 0), (0, 8), (8, 0), (1, 9), (9, 1)]
     for stream in streams:
         for calls in call_sets:
-            if not deep and len(calls) == 2 and len(stream) > 2:
+            if len(calls) == 2 and len(stream) > (3 if deep else 2):
+                continue
+            if len(stream) == 4 and (len(calls) > 1 or calls[0] not in (0, 1, 2, 8)):
                 continue
             for start, cancel in itertools.product(itertools.product((0, 1), repeat=len(calls)), (None, 0, 1, 2)):
                 if not deep and (cancel == 2 or (cancel == 0 and len(stream) > 1)):
